@@ -39,7 +39,7 @@ AllProd == {"val", "err", "exc", "drop"}
 AllCons == ContK \cup DropK \cup WaitK \cup {"connect", "get_const"}
 
 PLocs == {"res1", "core1", "res2", "core2", "func", "evobj", "evready"}
-ALocs == {"c1.cb", "cb2", "mtx"}
+ALocs == {"c1.cb", "cb2", "mtx", "gate"}
 
 MM == INSTANCE MemModel WITH MProc <- Proc, MALoc <- ALocs, MPLoc <- PLocs
 
@@ -55,10 +55,11 @@ VARIABLES scen,     \* [prod, cons]
           calls,    \* arguments the user callback was invoked with, in order
           gets,     \* what Get / Get const& returned
           err,      \* ownership errors detected by the model (use after free, double free)
+          stored,   \* the producer has constructed the Result in the core (not necessarily published yet)
           ev,       \* the slice just executed, in the format the harness logs
           mm        \* MemModel state
 
-vars == <<scen, cb1, cb2, res1, res2, alive, evReady, mtx, cvWait, woken, q, pc, calls, gets, err, ev, mm>>
+vars == <<scen, cb1, cb2, res1, res2, alive, evReady, mtx, cvWait, woken, q, pc, calls, gets, err, stored, ev, mm>>
 
 Payload == CASE scen.prod = "val" -> "v7" [] scen.prod = "exc" -> "exc:x" [] OTHER -> "stop"
 Ptr == CASE scen.cons \in ContK -> "@C.a0" [] scen.cons \in DropK -> "@drop"
@@ -71,7 +72,7 @@ W(l) == [k |-> "W", l |-> l]
 R(l) == [k |-> "R", l |-> l]
 
 Ev(p, a, o, old, new, ok, obs, done, site, post) ==
-  [p |-> p, a |-> a, o |-> o, old |-> old, new |-> new, ok |-> ok, obs |-> obs, done |-> done,
+  [p |-> p, a |-> a, o |-> o, old |-> old, new |-> new, ok |-> ok, spur |-> FALSE, obs |-> obs, done |-> done,
    site |-> site, post |-> post]
 
 NoEv == Ev("-", "-", "-", "-", "-", TRUE, <<>>, FALSE, "-", <<>>)
@@ -83,7 +84,7 @@ NoEv == Ev("-", "-", "-", "-", "-", TRUE, <<>>, FALSE, "-", <<>>)
 (* recorded in the memory model here.                                       *)
 (***************************************************************************)
 InitMM(c) ==
-  LET m0 == MM!PWrite(MM!PWrite(MM!MInit, "P", "res1"), "P", "core1")   \* root created core1; P stores into it
+  LET m0 == MM!MInit                                                    \* the producer stores the result after its gate
       m1 == IF c \in ContK THEN MM!PWrite(MM!PWrite(MM!PWrite(m0, "C", "core2"), "C", "func"), "C", "res2")
             ELSE IF c \in WaitK THEN MM!PWrite(MM!PWrite(m0, "C", "evobj"), "C", "evready")
             ELSE m0
@@ -96,21 +97,21 @@ I0(s) ==
                core2 |-> IF s.cons \in ContK \cup {"connect"} THEN "yes" ELSE "no",
                evobj |-> IF s.cons \in WaitK THEN "yes" ELSE "no"],
     evReady |-> FALSE, mtx |-> "free", cvWait |-> FALSE, woken |-> FALSE, q |-> 0,
-    pc |-> [P |-> "xchg",
+    pc |-> [P |-> "gate",
             C |-> CASE s.cons \in DetK -> "store" [] s.cons = "get_const" -> "poll1" [] OTHER -> "load"],
-    calls |-> <<>>, gets |-> <<>>, err |-> {}, ev |-> NoEv, mm |-> InitMM(s.cons) ]
+    calls |-> <<>>, gets |-> <<>>, err |-> {}, stored |-> FALSE, ev |-> NoEv, mm |-> InitMM(s.cons) ]
 
 InitScen(s) ==
   LET i == I0(s) IN
   /\ scen = i.scen /\ cb1 = i.cb1 /\ cb2 = i.cb2 /\ res1 = i.res1 /\ res2 = i.res2 /\ alive = i.alive
   /\ evReady = i.evReady /\ mtx = i.mtx /\ cvWait = i.cvWait /\ woken = i.woken /\ q = i.q /\ pc = i.pc
-  /\ calls = i.calls /\ gets = i.gets /\ err = i.err /\ ev = i.ev /\ mm = i.mm
+  /\ calls = i.calls /\ gets = i.gets /\ err = i.err /\ stored = i.stored /\ ev = i.ev /\ mm = i.mm
 
 ResetScen(s) ==
   LET i == I0(s) IN
   /\ scen' = i.scen /\ cb1' = i.cb1 /\ cb2' = i.cb2 /\ res1' = i.res1 /\ res2' = i.res2 /\ alive' = i.alive
   /\ evReady' = i.evReady /\ mtx' = i.mtx /\ cvWait' = i.cvWait /\ woken' = i.woken /\ q' = i.q /\ pc' = i.pc
-  /\ calls' = i.calls /\ gets' = i.gets /\ err' = i.err /\ ev' = i.ev /\ mm' = i.mm
+  /\ calls' = i.calls /\ gets' = i.gets /\ err' = i.err /\ stored' = i.stored /\ ev' = i.ev /\ mm' = i.mm
 
 Init == \E pr \in ProdKinds, co \in ConsKinds : InitScen([prod |-> pr, cons |-> co])
 
@@ -139,6 +140,14 @@ FreeCore1Post == <<W("res1"), W("core1")>>
 (***************************************************************************)
 (* Producer                                                                 *)
 (***************************************************************************)
+\* the producer's first visible operation (a flag of the harness); in its tail Promise::Set stores the result
+PGate ==
+  /\ pc.P = "gate"
+  /\ pc' = [pc EXCEPT !.P = "xchg"]
+  /\ stored' = TRUE
+  /\ ev' = Ev("P", "store", "gate", "0", "1", TRUE, <<>>, FALSE, "Harness.gate", <<W("res1")>>)
+  /\ UNCHANGED <<scen, cb1, cb2, res1, res2, alive, evReady, mtx, cvWait, woken, q, calls, gets, err>>
+
 PSet ==
   /\ pc.P = "xchg"
   /\ cb1' = "MAX"
@@ -372,10 +381,12 @@ RootDrain ==
   /\ alive' = [alive EXCEPT !.core1 = "freed", !.core2 = IF scen.cons \in DetK THEN "freed" ELSE @]
   /\ err' = err \cup Use("core1") \cup Use("core2")
   /\ ev' = Ev("root", "robs", "-", "-", "-", TRUE, <<Ob("call", res1)>>, FALSE, "-", <<>>)
-  /\ UNCHANGED <<scen, cb1, evReady, mtx, cvWait, woken, pc, gets>>
+  /\ UNCHANGED <<scen, cb1, evReady, mtx, cvWait, woken, pc, gets, stored>>
 
-Step == \/ PSet \/ X2("P") \/ PLock \/ PNotify \/ PUnlock
-        \/ CStore \/ CLoad \/ CCas \/ X2("C") \/ CEvLock \/ CCvWait \/ CCvWake \/ CEvUnlock \/ CRdy \/ CPoll
+Step == \/ PGate
+        \/ /\ \/ PSet \/ X2("P") \/ PLock \/ PNotify \/ PUnlock
+              \/ CStore \/ CLoad \/ CCas \/ X2("C") \/ CEvLock \/ CCvWait \/ CCvWake \/ CEvUnlock \/ CRdy \/ CPoll
+           /\ UNCHANGED stored
 
 Quiescent == pc.P = "done" /\ pc.C = "done" /\ q = 0
 
@@ -417,7 +428,7 @@ WaitMeansReady == \A i \in 1..Len(gets) : gets[i] # "notready"
 (* Binding to the conformance harness                                       *)
 (***************************************************************************)
 \* logged object name -> atomic location of the memory model
-Loc(o) == CASE o = "c1.cb" -> "c1.cb" [] o \in {"C.a0.cb", "c2.cb"} -> "cb2" [] OTHER -> "mtx"
+Loc(o) == CASE o = "c1.cb" -> "c1.cb" [] o \in {"C.a0.cb", "c2.cb"} -> "cb2" [] o = "gate" -> "gate" [] OTHER -> "mtx"
 
 \* the "final" record the scenario driver reports after the root has drained the executor and released
 \* everything it was handed back
